@@ -253,6 +253,7 @@ def t_typeerrors(k, x):
     return x.nosuch
 def t_boolint(a, b): return (a + b, a * 2, a == b, a is b, int(a), str(a), [a].count(b))
 def t_str_more(s, t): return (s.find(t), s.count(t) if t else -1, s.rpartition(t) if t else None, s * 2, s.isalpha(), s.splitlines(), s.partition(t) if t else None)
+def t_str_strip_chars(s, t): return (s.strip(t) if t else None, s.lstrip(t) if t else None, s.rstrip(t) if t else None, s.strip(), s.lstrip(" \t"))
 def t_str_pct(a, b): return ("%s-%s" % (a, b), "%d" % b if isinstance(b, int) else None, "%(x)s" % {"x": a})
 def t_repr(s): return (repr(s), str(s), [s].__len__() if False else 1)
 def t_minmax(xs): return (min(xs), max(xs), sorted(xs))
@@ -324,7 +325,7 @@ CASES = {
     "c_isinstance": [(x,) for x in MIXED + [[1], {"a": 1}]], "c_eq_mixed": [(a, b) for a in MIXED for b in MIXED], "c_tuple": [(a, b) for a in [1, "x", None] for b in [2, "x"]], "c_star": [(xs,) for xs in LISTS[:3]],
     "t_alias": [(1,), ("a",)], "t_nested_alias": [()], "t_dict_bool_keys": [()], "t_call_default": [()], "t_finally_return": [()], "t_reraise": [(0,), (3,)],
     "t_typeerrors": [(k, x) for k in range(9) for x in [None, 1, "a", [1], True]], "t_boolint": [(a, b) for a in [True, False, 0, 1, 2] for b in [True, 1, 0]],
-    "t_str_more": [(s, t) for s in STRS for t in SHORT], "t_str_pct": [(a, b) for a in ["x", "%s", ""] for b in [1, "y", -2]], "t_repr": [(s,) for s in ["", "a", "it's", 'say "hi"', "back\\slash", "tab\t", "é", "both ' and \""]],
+    "t_str_strip_chars": [(s, t) for s in STRS for t in SHORT], "t_str_more": [(s, t) for s in STRS for t in SHORT], "t_str_pct": [(a, b) for a in ["x", "%s", ""] for b in [1, "y", -2]], "t_repr": [(s,) for s in ["", "a", "it's", 'say "hi"', "back\\slash", "tab\t", "é", "both ' and \""]],
     "t_minmax": [(xs,) for xs in [[1], [3, 1, 2], ["b", "a"], [], [1, "a"]]], "t_notin": [(x, xs) for x in [1, None, "a", True] for xs in LISTS], "t_augassign": [(n,) for n in [0, 5]],
     "t_any_exc": [(xs,) for xs in [[], [0, 2], [0, "a"], [5, "a"]]], "t_ternary_chain": [(x,) for x in [-1, 0, 1]], "t_str_index": [(s, a) for s in ["", "a", "abc"] for a in SMALL],
     "t_dict_order": [()], "t_od_order": [("a",), ("b",), ("c",), ("q",)], "t_islice_neg": [(a, b) for a in [-1, 0, 1, None] for b in [-1, 0, 2, None]],
